@@ -3,16 +3,32 @@ rrulesets, a builder (cache on/off), and the datetime <-> int encoding used for 
 import datetime as _dt
 
 EPOCH = _dt.datetime(1970, 1, 1)
+_TZ = [None]      # tzinfo of the rule under test (None = naive); set by set_tz(recipe)
+
+
+def set_tz(recipe):
+    """rules are naive unless the recipe says "tz": "utc" | <offset seconds>; query arguments and the
+    integer encoding follow the rule (aware datetimes are compared as instants)"""
+    tzname = (recipe or {}).get("tz")
+    if tzname is None:
+        _TZ[0] = None
+    else:
+        from dateutil import tz
+        _TZ[0] = tz.tzutc() if tzname == "utc" else tz.tzoffset(None, int(tzname))
 
 
 def to_int(d):
-    """strictly monotone injection of (naive, whole-second) datetimes into the integers"""
+    """strictly monotone injection of whole-second datetimes into the integers (aware datetimes: of
+    the wall reading in the rule's own fixed-offset zone, which preserves the order of instants)"""
+    if d.tzinfo is not None:
+        d = d.replace(tzinfo=None)
     delta = d - EPOCH
     return delta.days * 86400 + delta.seconds
 
 
 def to_dt(z):
-    return EPOCH + _dt.timedelta(seconds=z)
+    d = EPOCH + _dt.timedelta(seconds=z)
+    return d if _TZ[0] is None else d.replace(tzinfo=_TZ[0])
 
 
 def _kw(rr, kw):
@@ -32,6 +48,7 @@ def _kw(rr, kw):
 def build(recipe, cache):
     """recipe -> rrule / rruleset object (a new one on every call)"""
     from dateutil import rrule as rr
+    set_tz(recipe)
     if recipe["kind"] == "rrule":
         return rr.rrule(cache=cache, **_kw(rr, recipe["kw"]))
     s = rr.rruleset(cache=cache)
@@ -53,6 +70,30 @@ DAY = 86400
 def daily(n, start=T0):
     from dateutil import rrule as rr
     return {"kind": "rrule", "kw": {"freq": rr.DAILY, "count": n, "dtstart": start}}
+
+
+def until_rule(n):
+    """DAILY rule ended by UNTIL (the generator's `until` exit) with exactly n occurrences"""
+    from dateutil import rrule as rr
+    return {"kind": "rrule", "kw": {"freq": rr.DAILY, "dtstart": T0, "until": T0 + DAY * (n - 1) + 3600}}
+
+
+def setpos_rule(n, until=False):
+    """MONTHLY last-working-day rule (the generator's BYSETPOS branch) with exactly n occurrences"""
+    from dateutil import rrule as rr
+    kw = {"freq": rr.MONTHLY, "dtstart": T0, "byweekday": [[d, None] for d in range(5)], "bysetpos": -1}
+    if until:
+        occ = [to_int(d) for d in build({"kind": "rrule", "kw": dict(kw, count=n + 1)}, False)]
+        kw["until"] = occ[n] - 1
+    else:
+        kw["count"] = n
+    return {"kind": "rrule", "kw": kw}
+
+
+def variants_of_length(n):
+    """finite rules of length n that leave the underlying generator through each of its exits"""
+    return [daily(n), until_rule(n), setpos_rule(n, False), setpos_rule(n, True),
+            set_of_length(n, 0), set_of_length(n, 1), set_of_length(n, 2)]
 
 
 def set_of_length(n, variant=0):
@@ -124,7 +165,17 @@ def random_recipe(r, maxlen=35):
     return rec
 
 
+def aware(recipe, tzname):
+    r = dict(recipe)
+    r["tz"] = tzname
+    return r
+
+
 def describe(recipe):
+    if recipe.get("tz") is not None:
+        r = dict(recipe)
+        tzname = r.pop("tz")
+        return describe(r) + " in tz %s" % tzname
     if recipe["kind"] == "rrule":
         return "rrule(%s)" % ", ".join("%s=%s" % kv for kv in sorted(recipe["kw"].items()))
     return "rruleset(rrules=%d, rdates=%d, exrules=%d, exdates=%d)" % (
@@ -147,3 +198,30 @@ def call_many(o, reqs, limit=20000):
     if part:
         out += o.call_many(part, chunk=len(part))
     return out
+
+
+class Timeout(BaseException):
+    """raised in the main thread by the watchdog when implementation code does not come back"""
+
+
+class watchdog(object):
+    """with watchdog(seconds): ...  -- SIGALRM based; an endless loop in the implementation becomes an
+    exception (reported as a violation: the operation never completes) instead of a hung check"""
+
+    def __init__(self, seconds):
+        self.seconds = seconds
+
+    def _fire(self, signum, frame):
+        raise Timeout()
+
+    def __enter__(self):
+        import signal
+        self.old = signal.signal(signal.SIGALRM, self._fire)
+        signal.setitimer(signal.ITIMER_REAL, self.seconds)
+        return self
+
+    def __exit__(self, *exc):
+        import signal
+        signal.setitimer(signal.ITIMER_REAL, 0)
+        signal.signal(signal.SIGALRM, self.old)
+        return False
